@@ -374,6 +374,41 @@ def enter {G : Type} (c : Crypto G) (env : Env) (processed : List MsgId) (future
 
 /-! ### Processor.OnMessageVerify -/
 
+/-! ### `Processor.futureMessages` / `finishedParty`: hashicorp/golang-lru
+
+`simplelru.LRU`: a recency list, most recently used first. `Add` of a present key updates the value
+and moves it to the front; `Add` of a new key pushes it to the front and evicts the oldest entry when
+the size exceeds the capacity; `Get` moves the key to the front; `Peek`/`Contains` do not; `Remove`. -/
+
+structure Lru (V : Type) where
+  cap : Nat
+  /-- most recently used first -/
+  items : List (Data × V)
+
+def Lru.empty {V : Type} (cap : Nat) : Lru V := ⟨cap, []⟩
+
+def Lru.peek {V : Type} (c : Lru V) (k : Data) : Option V :=
+  (c.items.find? (fun e => e.1 == k)).map (·.2)
+
+def Lru.contains {V : Type} (c : Lru V) (k : Data) : Bool := c.items.any (fun e => e.1 == k)
+
+def Lru.remove {V : Type} (c : Lru V) (k : Data) : Lru V :=
+  { c with items := c.items.filter (fun e => !(e.1 == k)) }
+
+/-- `Add`: the key ends up in front; a new key may push the oldest one out. -/
+def Lru.add {V : Type} (c : Lru V) (k : Data) (v : V) : Lru V :=
+  if c.contains k then { c with items := (k, v) :: (c.remove k).items }
+  else { c with items := ((k, v) :: c.items).take c.cap }
+
+/-- `Get`: value and the cache with the key moved to the front. -/
+def Lru.get {V : Type} (c : Lru V) (k : Data) : Option V × Lru V :=
+  match c.peek k with
+  | some v => (some v, { c with items := (k, v) :: (c.remove k).items })
+  | none => (none, c)
+
+/-- `ProcessorfutureMessages` capacity (`Processor.Init`: `common.CreateLRUCache(50)`). -/
+def futureCap : Nat := 50
+
 structure Proc (G : Type) where
   party : Party G
   /-- the party is in `partyManager` under the block hash -/
@@ -381,17 +416,18 @@ structure Proc (G : Type) where
   /-- the block hash is in `finishedParty` -/
   done : Bool
   /-- `Processor.futureMessages`: messages filed under keys with no party -/
-  stray : List (Data × Nat)
+  stray : Lru (List (VMsg G))
   /-- how the party ended: "err" / "done" -/
   ending : Option Bool
 
-def strayAdd (l : List (Data × Nat)) (k : Data) : List (Data × Nat) :=
-  if l.any (fun e => e.1 == k) then l.map (fun e => if e.1 == k then (e.1, e.2 + 1) else e)
-  else l ++ [(k, 1)]
+/-- The parking branch of `loadOrNewSignParty`: `Get(key)` (recency!), append, `Add(key, msgs)`. -/
+def park {G : Type} (l : Lru (List (VMsg G))) (k : Data) (m : VMsg G) : Lru (List (VMsg G)) :=
+  let r := l.get k
+  r.2.add k ((r.1.getD []) ++ [m])
 
-def strayCount (l : List (Data × Nat)) (k : Data) : Nat :=
-  match l.find? (fun e => e.1 == k) with
-  | some e => e.2
+def strayCount {G : Type} (l : Lru (List (VMsg G))) (k : Data) : Nat :=
+  match l.peek k with
+  | some ms => ms.length
   | none => 0
 
 /-- What `waitUntilDone` does when `Err` or `Done` fires. `ending = some true` for done. -/
@@ -409,8 +445,8 @@ def Proc.onVerify {G : Type} (c : Crypto G) (env : Env) (pr : Proc G) (m : VMsg 
       let r := partyUpdate c env pr.party m
       (settle { pr with party := r.1 }, r.2)
     else if pr.done then (pr, .alreadyHad)
-    else ({ pr with stray := strayAdd pr.stray m.blockHash }, .alreadyHad)
-  else ({ pr with stray := strayAdd pr.stray m.blockHash }, .alreadyHad)
+    else ({ pr with stray := park pr.stray m.blockHash m }, .alreadyHad)
+  else ({ pr with stray := park pr.stray m.blockHash m }, .alreadyHad)
 
 /-- A network packet: decode (drop on error / recovered panic), then `OnMessageVerify`. -/
 def Proc.deliver {G : Type} (c : Crypto G) (env : Env) (pr : Proc G) (w : Wire G) : Proc G × Outcome :=
@@ -420,11 +456,11 @@ def Proc.deliver {G : Type} (c : Crypto G) (env : Env) (pr : Proc G) (w : Wire G
 
 /-- The processor right after the party entered round1 with the given stored messages. -/
 def Proc.init {G : Type} (c : Crypto G) (env : Env) (future : List (VMsg G)) : Proc G :=
-  settle { party := enter c env [] future, inManager := true, done := false, stray := [], ending := none }
+  settle { party := enter c env [] future, inManager := true, done := false, stray := Lru.empty futureCap, ending := none }
 
 /-- The same with the message ids round0 had already processed (the cast message's id). -/
 def Proc.initWith {G : Type} (c : Crypto G) (env : Env) (processed : List MsgId) (future : List (VMsg G)) : Proc G :=
-  settle { party := enter c env processed future, inManager := true, done := false, stray := [], ending := none }
+  settle { party := enter c env processed future, inManager := true, done := false, stray := Lru.empty futureCap, ending := none }
 
 def Proc.run {G : Type} (c : Crypto G) (env : Env) (pr : Proc G) : List (Wire G) → Proc G
   | [] => pr
